@@ -168,6 +168,37 @@ func (p *Pool) DoT(req Req, timeout time.Duration) Resp {
 	}
 }
 
+// DoFresh runs one request in a brand-new worker process that is discarded afterwards.
+func (p *Pool) DoFresh(req Req) Resp {
+	w := &worker{idx: 1000 + int(atomic.AddInt64(&p.nextID, 1))}
+	if err := p.start(w); err != nil {
+		return Resp{Kind: "died", Stderr: err.Error()}
+	}
+	defer p.kill(w)
+	data, err := json.Marshal(req)
+	if err != nil {
+		return Resp{Kind: "died", Stderr: err.Error()}
+	}
+	ch := make(chan Resp, 1)
+	go func() {
+		w.in.Write(data)
+		w.in.WriteByte('\n')
+		w.in.Flush()
+		var resp Resp
+		if err := w.out.Decode(&resp); err != nil {
+			ch <- Resp{Kind: "died", Stderr: err.Error() + "\n" + tail(w.stderr, 2000)}
+			return
+		}
+		ch <- resp
+	}()
+	select {
+	case r := <-ch:
+		return r
+	case <-time.After(p.Timeout):
+		return Resp{Kind: "timeout"}
+	}
+}
+
 // Batch sends the sub-requests as one "batch" command. If the worker dies or times out,
 // every sub-request is re-run alone so that the culprit is identified; innocent cases get
 // their real responses.
